@@ -47,6 +47,11 @@ type c16Case struct {
 	MidStep int `json:"mid_step,omitempty"`
 	// Prompts (LOGIN): the server's wording of its two prompts, "first|second" ("" = Username:|Password:).
 	Prompts string `json:"prompts,omitempty"`
+	// CfgVia (mail.Client mode): how logging was configured. "" = the options WithLogger + WithDebugLog;
+	// "setters" = Client.SetLogger + Client.SetDebugLog(true) before the dial; "authdata-off" = the Client
+	// was created WithLogAuthData() and the application switched it off again with SetLogAuthData(false)
+	// before the dial (auth-data logging is then NOT enabled).
+	CfgVia string `json:"cfg_via,omitempty"`
 }
 
 // midAuth wraps an smtp.Auth and runs a hook when the first challenge arrives, i.e. between two
@@ -157,18 +162,33 @@ func c16Run(c c16Case) []*core.Violation {
 	var sink bytes.Buffer
 	var sinkMu sync.Mutex
 	w := writerFunc(func(p []byte) (int, error) { sinkMu.Lock(); defer sinkMu.Unlock(); return sink.Write(p) })
+	var theLogger maillog.Logger
 	switch c.Logger {
 	case "std":
-		opts = append(opts, mail.WithLogger(maillog.New(w, maillog.LevelDebug)))
+		theLogger = maillog.New(w, maillog.LevelDebug)
 	case "json":
-		opts = append(opts, mail.WithLogger(maillog.NewJSON(w, maillog.LevelDebug)))
+		theLogger = maillog.NewJSON(w, maillog.LevelDebug)
 	default:
-		opts = append(opts, mail.WithLogger(capture))
+		theLogger = capture
 	}
-	opts = append(opts, mail.WithDebugLog())
+	if c.CfgVia != "setters" {
+		opts = append(opts, mail.WithLogger(theLogger), mail.WithDebugLog())
+	}
+	if c.CfgVia == "authdata-off" {
+		opts = append(opts, mail.WithLogAuthData())
+	}
 	cl, err := mail.NewClient(refHost, opts...)
 	if err != nil {
 		return []*core.Violation{core.V("HARNESS-newclient", "%v", err)}
+	}
+	switch c.CfgVia {
+	case "setters":
+		cl.SetLogger(theLogger)
+		cl.SetDebugLog(true)
+		rec.Class("configured-through-setters")
+	case "authdata-off":
+		cl.SetLogAuthData(false)
+		rec.Class("auth-data-logging-switched-off-again")
 	}
 	marker := "windowtoken" + core.Hash(c.User+c.Pass)
 	m := mail.NewMsg()
@@ -471,6 +491,8 @@ func c16Gen(t *rapid.T) c16Case {
 		c.Mid = rapid.SampledFrom([]string{"", "", "close", "debugon", "noop"}).Draw(t, "mid")
 		c.MidStep = rapid.IntRange(1, 2).Draw(t, "midstep")
 		c.Mech = strings.TrimSuffix(c.Mech, "-NOENC")
+	} else {
+		c.CfgVia = rapid.SampledFrom([]string{"", "", "", "setters", "authdata-off"}).Draw(t, "cfgvia")
 	}
 	if strings.HasPrefix(c.Mech, "LOGIN") {
 		c.Prompts = rapid.SampledFrom([]string{"", "", "Username:|Username:", "User Name|User Password", "username:|userpassword:", "Login:|Secret:", "|", "User:|user secret"}).Draw(t, "prompts")
